@@ -2,17 +2,18 @@
 # Regression suite for the checks themselves: every stored seeded change that still applies to /repo HEAD is applied
 # in a scratch worktree and the check of its property is run against it; it must report a VIOLATION.
 # usage: tools/reseed.sh [ids...]     (default: all of seeded/*)
-cd /verif
+V=${VERIF_ROOT:-/verif}
+cd $V
 ids=${@:-$(ls seeded)}
-WT=/tmp/reseed_wt
+WT=/tmp/reseed_wt_$$
 for sid in $ids; do
   pid=${sid%%_*}
   git -C /repo worktree remove --force $WT 2>/dev/null; rm -rf $WT
   git -C /repo worktree add -q --detach $WT HEAD || { echo "$sid: cannot create worktree"; continue; }
-  if ! git -C $WT apply --check /verif/seeded/$sid/patch.diff 2>/dev/null; then
+  if ! git -C $WT apply --check $V/seeded/$sid/patch.diff 2>/dev/null; then
     echo "$sid: patch no longer applies to HEAD (code changed since) - skipped"; continue
   fi
-  git -C $WT apply /verif/seeded/$sid/patch.diff
+  git -C $WT apply $V/seeded/$sid/patch.diff
   out=$(TDDA_REPO=$WT /venv/bin/python harness/vcheck.py $pid --tier quick 2>&1 | grep "^VIOLATION\|^$pid quick" | tr '\n' ' ')
   case "$out" in
     *"no-failing-input-found"*) echo "$sid: CAUGHT (no failing input) :: ${out:0:200}";;
@@ -21,5 +22,5 @@ for sid in $ids; do
   esac
 done
 git -C /repo worktree remove --force $WT 2>/dev/null; rm -rf $WT
-(cd /verif/harness && /venv/bin/python translate.py >/dev/null 2>&1)
+(cd $V/harness && /venv/bin/python translate.py >/dev/null 2>&1)
 echo reseed-done
